@@ -17,7 +17,7 @@ META = {
             "all y = rebuild(x), commute(x), one-atom mutants of x (argument -> other value / equal value of another "
             "numeric type / list<->tuple; callable; pre-processor; datum kind; operator; operand; part kind; key / index / "
             "value condition; label; datum / multiplicity modifier; part added / dropped; cast; rule added / dropped / "
-            "reordered); a case is one ordered pair (x, y); non-trivial = x == y held and behaviour was compared on all "
+            "reordered); for both members of every pair also the same definition written as a spec and loaded through the spec parser (a separately built copy: must be equal, both loaded in the one process of the unit); a case is one ordered pair (x, y); non-trivial = x == y held and behaviour was compared on all "
             "probe documents; plus all triples of each 60-object pool for transitivity; plus, for every modifier-free path, every modifier variant derived from an already-compared live object",
     "assumptions": ["one-atom mutants are NOT required to be unequal; only an equal pair that behaves differently is a violation",
                     "comparisons with foreign objects (5, None, another valida kind) are executed but only required not to "
@@ -422,6 +422,56 @@ def build(kind, t):
     return T.build(t)
 
 
+def _tuple_arg(t):
+    """Does a leaf of the term carry a tuple argument?  (Specs have lists only, and a list never equals a tuple.)"""
+    if not isinstance(t, tuple) or not t:
+        return False
+    if t[0] == "leaf":
+        def tup(a):
+            if T.is_path_arg(a):
+                return _tuple_arg(a[1])
+            if isinstance(a, tuple):
+                return True
+            if isinstance(a, list):
+                return any(tup(i) for i in a)
+            if isinstance(a, dict):
+                return any(tup(v) for v in a.values())
+            return False
+        return any(tup(a) for a in t[3]) or any(tup(v) for _, v in t[4])
+    if t[0] == "lit":
+        return isinstance(t[1], tuple)
+    rest = t[1:] if isinstance(t[0], str) else t        # a tagged term / a plain tuple of terms
+    return any(_tuple_arg(i) for i in rest if isinstance(i, tuple))
+
+
+def build_from_spec(kind, t):
+    """The same definition written as a spec and loaded through the spec parser; None when the term has no spec
+    spelling here (or the parser refuses it: C09 / C10 / C19 judge that)."""
+    from mc import specs as S
+    from valida.conditions import ConditionLike
+    from valida.datapath import DataPath, ContainerValue
+    from valida.rules import Rule
+    from valida.schema import Schema
+    if _tuple_arg(t):
+        return None
+    try:
+        if kind == "cond":
+            return ConditionLike.from_spec(S.cond_spec(t))
+        if kind == "part":
+            if t[0] == "prim":
+                return DataPath.from_part_specs(t[1]).parts[0]
+            return ContainerValue.from_spec(S.part_spec(t))
+        if kind == "path":
+            return DataPath.from_spec(S.path_spec(t))
+        if kind == "rule":
+            return Rule.from_spec(S.rule_spec(t))
+        if kind == "schema":
+            return Schema([Rule.from_spec(S.rule_spec(r)) for r in t[1]])
+    except BaseException:
+        return None
+    return None
+
+
 def atom(how):
     """coarse class of the change, for signatures"""
     h = how.split(":")
@@ -474,6 +524,23 @@ def check_pair(res, kind, xt, yt, how):
         if not xy:
             res.violation("copy-unequal:%s" % sig, "%s and its %s copy %s compare unequal" % (T.show(xt), how, T.show(yt)), case,
                           observed=False, expected=True)
+            return
+    # the same definitions written as specs and loaded by the parser are copies too (both in this one process)
+    for who, t, o in (("x", xt, x), ("y", yt, y)):
+        res.count("transitions")
+        o2 = build_from_spec(kind, t)
+        if o2 is None:
+            res.count("no_spec_copy")
+            continue
+        try:
+            same = (o2 == o) and (o == o2)
+        except BaseException as e:
+            res.violation("eq-raises:%s:%s" % (kind, type(e).__name__), "comparing %s with its spec-built copy raised %r" % (T.show(t), e),
+                          case, observed=repr(e))
+            return
+        if not same:
+            res.violation("copy-unequal:%s:spec-built" % kind, "%s and the same definition loaded from its spec compare unequal: %r"
+                          % (T.show(t), o2), case, observed=repr(o2), expected=repr(o))
             return
     if xy:
         res.count("transitions", 2)
